@@ -656,6 +656,9 @@ func (g *TyGen) EqEnv() ([]*ast.Decl, []string) {
 	if !g.NoShifts && g.Chance(30, "shiftfamily") {
 		all = append(all, g.shiftFamily(&log)...)
 	}
+	if g.Chance(12, "dagfamily") {
+		all = append(all, g.dagFamily(&log)...)
+	}
 	// a definition body must not have become a bare name cycle; aliases only point to existing names
 	g.Annotate(all)
 	return all, log
@@ -712,6 +715,57 @@ func (g *TyGen) assocFamily(log *[]string) []*ast.Decl {
 	return out
 }
 
+
+// dagFamily adds two parallel chains of definitions, each level mentioning the next one twice
+// (Dg_i = Dg_{i+1} op Dg_{i+1}, likewise Dh_i): the unfolding of Dg0 is a tree with 2^n leaves, the
+// definitions are a chain of n. Comparing Dg0 with Dh0 is linear work for an algorithm that shares
+// what it has established between sibling positions, and exponential for one that does not.
+func (g *TyGen) dagFamily(log *[]string) []*ast.Decl {
+	m := g.GenMode()
+	n := g.Int(12, 40, "dagdepth")
+	var out []*ast.Decl
+	add := func(name string, t *ast.Ty) {
+		g.Names = append(g.Names, name)
+		g.Modes[name] = m
+		out = append(out, &ast.Decl{Kind: ast.DType, Name: name, Ty: t})
+	}
+	ops := make([]int, n)
+	for i := range ops {
+		ops[i] = g.Pick(4, "dagop")
+	}
+	if g.Likely(60, "dagoneop") {
+		// one constructor all the way down: whatever a comparison fails to share for that
+		// constructor costs 2^n
+		for i := range ops {
+			ops[i] = ops[0]
+		}
+	}
+	nearMiss := g.Chance(30, "dagnearmiss")
+	for _, stem := range []string{"Dg", "Dh"} {
+		for i := 0; i < n; i++ {
+			a, b := ast.NameTy(m, fmt.Sprintf("%s%d", stem, i+1)), ast.NameTy(m, fmt.Sprintf("%s%d", stem, i+1))
+			var t *ast.Ty
+			switch ops[i] {
+			case 0:
+				t = ast.Tensor(m, a, b)
+			case 1:
+				t = ast.Lolli(m, a, b)
+			case 2:
+				t = ast.Plus(m, ast.Br{L: "l", T: a}, ast.Br{L: "r", T: b})
+			default:
+				t = ast.With(m, ast.Br{L: "l", T: a}, ast.Br{L: "r", T: b})
+			}
+			add(fmt.Sprintf("%s%d", stem, i), t)
+		}
+		last := ast.One(m)
+		if nearMiss && stem == "Dh" {
+			last = ast.Tensor(m, ast.One(m), ast.One(m))
+		}
+		add(fmt.Sprintf("%s%d", stem, n), last)
+	}
+	*log = append(*log, fmt.Sprintf("dag family of depth %d (near miss at the leaves: %v)", n, nearMiss))
+	return out
+}
 
 // shiftFamily adds definitions whose root is a shift and that differ only in one of the two
 // modes of that shift (same continuation where the modes allow it), and choices over them.
